@@ -4,7 +4,7 @@
    flight, any enabled one may advance; update_document compares document versions and keeps base_dict).
    `lastword w u` is what the client shows for u (the most recent publishDiagnostics, by provenance),
    `expected w u` what the property demands, `pubval w u` what doc_state would publish now. *)
-Require Import Base Server ServerProofs ServerSeq ServerConc ServerClose ServerVer C09Batch C09BatchProofs C09Seq C09SeqProofs C09DictLock Tables_c09handlers C09Handlers.
+Require Import Base Server ServerProofs ServerSeq ServerConc ServerClose ServerVer C09Batch C09BatchProofs C09Seq C09SeqProofs C09DictLock Tables_c09handlers C09Handlers C09Race C09RaceProofs C09RaceFamA C09RaceFamB C09RaceAll.
 
 (* ================================================================================================
    What does NOT hold (each with a concrete schedule on the faithful model; replayed on the real
@@ -646,3 +646,75 @@ Proof. exact handler_skeletons. Qed.
 Check C09_handler_skeletons :
   c09_skeletons = expected_skeletons.
 Print Assumptions C09_handler_skeletons.
+
+(* ================================================================================================
+   Phase 5: add-word commands and configuration changes IN FLIGHT with didChange (what remained of F17a: the
+   dictionary race of C09_dictionary_race_refuted, "a didChange overtakes a command / a configuration change").
+   Model/C09Race.v: `xtrace cs y` = the reads of the dictionary files, the writes of save_dict, the critical sections of
+   update_document (with: does it leave the entry with its text, which settings it copied, does it build a new
+   linter), the linter rebuilds of did_change_configuration and the publications, in the order the schedule executes
+   them.  `race_overtaken w0 wf u tr` (decidable, on the trace): the LAST effective critical section of u does not carry
+   the newest text, OR a dictionary file of u was changed after the handler of that critical section read it, OR that
+   critical section copied other settings than the final ones, OR the last linter built for u has other settings, OR the
+   last publication of u went out under other severity settings.
+   ================================================================================================ *)
+
+(* the explorer check_all visits EVERY schedule of the dispatcher `run` (any number of handlers, any world): if it
+   answers Some true for P, then P holds of the trace and the final system of every schedule that ends quiescent *)
+Theorem C09_race_explorer_complete :
+  forall f P acc y, check_all f P acc y = Some true ->
+  forall cs y', run cs y = Some y' -> quiescent y' -> P (rev acc ++ xtrace cs y) y' = true.
+Proof. exact check_all_sound. Qed.
+Check C09_race_explorer_complete :
+  forall f P acc y, check_all f P acc y = Some true ->
+  forall cs y', run cs y = Some y' -> quiescent y' -> P (rev acc ++ xtrace cs y) y' = true.
+Print Assumptions C09_race_explorer_complete.
+
+(* EXACT (both directions), for ALL schedules at await granularity, of every race of the family race_family (14
+   members: HarperAddToUserDict / HarperAddToFileDict / didChangeConfiguration sent just before or just after a
+   didChange, both in flight together; the command names the document itself (a saved file: it is re-read from disk),
+   another document, or an untitled document): the last word of the document is right IFF race_overtaken is false.
+   Between 2 002 and 293 930 schedules per member, every one visited (C09_race_explorer_complete).
+   PARTIAL: the worlds and messages are those of the family, not arbitrary ones (the general statement needs the
+   invariant of C09_batch_serialises with handlers that carry outdated dictionary / settings reads; not done);
+   the definition of the shape is general, and the harness compares it with the real server on generated races. *)
+Theorem C09_cmd_race_exact_partial :
+  forall w0 h u, In (w0, h, u) race_family ->
+  forall cs y, run cs (init h w0) = Some y -> quiescent y ->
+  (lastword (y_world y) u = expected (y_world y) u <->
+   race_overtaken w0 (y_world y) u (xtrace cs (init h w0)) = false).
+Proof. exact race_family_all_exact. Qed.
+Check C09_cmd_race_exact_partial :
+  forall w0 h u, In (w0, h, u) race_family ->
+  forall cs y, run cs (init h w0) = Some y -> quiescent y ->
+  (lastword (y_world y) u = expected (y_world y) u <->
+   race_overtaken w0 (y_world y) u (xtrace cs (init h w0)) = false).
+Print Assumptions C09_cmd_race_exact_partial.
+
+(* the family is what the comment says: every member is in the class race_okb, starts with a right last word, has two
+   messages *)
+Example C09_cmd_race_nonvacuous :
+  length race_family = 14 /\
+  forallb (fun m => match m with (w0, h, u) => race_okb w0 h u && freshb w0 u && (length h =? 2) end) race_family = true /\
+  In (race_wA, [AddUser 5 uA; Change uA (tx 1) 2], uA) race_family /\
+  In (race_wS, [Change uA (tx 1) 2; CfgChange 1 []], uA) race_family.
+Proof. exact race_family_nonvacuous. Qed.
+
+(* both sides of the IFF occur: of the 2 002 schedules of [AddUser 5 uB; Change uA] 686 leave uA's last word wrong, and
+   the shape flags 686 *)
+Example C09_cmd_race_counts :
+  count_all race_fuel (fun tr y => race_overtaken race_wA (y_world y) uA tr) [] (init [AddUser 5 uB; Change uA (tx 1) 2] race_wA)
+    = (2002%N, 686%N) /\
+  count_all race_fuel (fun _ y => negb (freshb (y_world y) uA)) [] (init [AddUser 5 uB; Change uA (tx 1) 2] race_wA)
+    = (2002%N, 686%N).
+Proof. exact race_counts_example. Qed.
+
+(* the witness of C09_dictionary_race_refuted (three handlers in flight, the didOpen among them) is in the class and has
+   exactly the flag "dictionary overtaken" *)
+Example C09_dictionary_race_shape :
+  exists y, run dict_race_schedule (init dict_race_history (world0 0)) = Some y /\ quiescentb y = true /\
+    race_okb (world0 0) dict_race_history uA = true /\
+    race_shape (world0 0) (y_world y) uA (xtrace dict_race_schedule (init dict_race_history (world0 0)))
+      = mkflags false true false false false /\
+    freshb (y_world y) uA = false.
+Proof. exact dict_race_shape. Qed.
